@@ -166,6 +166,8 @@ def _check_positions(text, mode="lossless"):
     skip = set()
     for e in r["errors"]:
         if e["name"] == "BAD_LEXEME":
+            if not e["highlights"]:
+                return "BAD_LEXEME is reported without any position"
             h = e["highlights"][0]
             if (h[0], h[1]) in offset_of:
                 skip.add(offset_of[(h[0], h[1])])
@@ -192,7 +194,7 @@ def _check_positions(text, mode="lossless"):
                 return f"token {typ} at ({ln},{col}) points into the middle of a spelling or at a splice"
             if want and lg[a] != want[0]:
                 return (f"token {typ} at ({ln},{col}) points at {lg[a]!r} but the token starts with {want[0]!r}")
-        return None
+        return check_diagnostics(text, r, table, offset_of, starts, ends)
     for (typ, ln, col, val), a, b in zip(r["tokens"], starts, ends):
         want = token_text(typ, val)
         got = norm_slice(text, a, b, table, typ == "MULT_COMMENT", skip)
@@ -211,6 +213,107 @@ def _check_positions(text, mode="lossless"):
     if head != "":
         return f"characters {head!r} before the first token are neither tokens nor reported"
     return None
+
+
+HEXD = "0123456789abcdefABCDEF"
+AT_TOKEN_START = {"UNEXPECTED_EOF_STR": ("STRING",), "UNEXPECTED_EOF_CHR": ("CHAR_CONST",), "UNEXPECTED_EOL_CHR": ("CHAR_CONST",),
+                  "EMPTY_CHAR": ("CHAR_CONST",), "CHAR_AS_STRING": ("CHAR_CONST",), "UNEXPECTED_EOF_MC": ("MULT_COMMENT",)}
+INSIDE = {"MAXIMAL_MUNCH": ("CONSTANT",), "INVALID_SUFFIX": ("CONSTANT",), "INVALID_BIN_INT": ("CONSTANT",),
+          "INVALID_OCT_INT": ("CONSTANT",), "INVALID_HEX_INT": ("CONSTANT",), "BAD_EXPONENT": ("CONSTANT",),
+          "MULTIPLE_X": ("CONSTANT",), "MULTIPLE_DOTS": ("CONSTANT",), "BAD_FLOAT_SUFFIX": ("CONSTANT",),
+          "UNKNOWN_ESCAPE": ("STRING", "CHAR_CONST"), "NO_HEX_DIGITS": ("STRING", "CHAR_CONST")}
+
+
+def digits_end(t):
+    """index in the text of an integer constant where the digit sequence ends (C 6.4.4.1:
+    what follows the digits is the suffix)"""
+    if t[:2] in ("0x", "0X") and len(t) > 2 and t[2] in HEXD:
+        k, cls = 2, HEXD
+    elif t[:2] in ("0b", "0B") and len(t) > 2 and t[2].isdigit():
+        k, cls = 2, "0123456789"
+    else:
+        k, cls = 0, "0123456789"
+    while k < len(t) and t[k] in cls:
+        k += 1
+    return k
+
+
+def check_diagnostics(text, r, table, offset_of, starts, ends):
+    """second sentence of C09 for the tokenizer's own diagnostics: the position printed with a
+    diagnostic (its first highlight) is the position of the offending character -- the start of
+    the literal for an unterminated / empty / overlong literal, the sign for MAXIMAL_MUNCH, the
+    first character after the digits for INVALID_SUFFIX, the digits not allowed in the base for
+    INVALID_BIN_INT / INVALID_OCT_INT, the character after the backslash for an unknown escape,
+    a character inside the constant for the other numeric diagnostics, and a character that is
+    in no token for BAD_LEXEME.  Judged only where the token concerned is spelled without
+    splices, alternative spellings or tabs (there columns inside the token are not one per
+    character: known finding K7 territory)."""
+    toks = r["tokens"]
+    for e in r["errors"]:
+        hs = e["highlights"]
+        if not hs:
+            return f"diagnostic {e['name']} carries no position at all"
+        h0 = hs[0]                  # the printed position; further highlights are hints
+        if (h0[0], h0[1]) not in offset_of and (h0[0], h0[1]) != table[-1]:
+            return f"diagnostic {e['name']} is printed with ({h0[0]},{h0[1]}), which is the position of no character of the text"
+        off = offset_of.get((h0[0], h0[1]))
+        if off is None:
+            if e["name"] in AT_TOKEN_START or e["name"] in INSIDE or e["name"] == "BAD_LEXEME":
+                return f"diagnostic {e['name']} is printed with the end of the text as its position"
+            continue
+        k = None
+        for i, (a, b) in enumerate(zip(starts, ends)):
+            if a <= off < b:
+                k = i
+        if e["name"] == "BAD_LEXEME":
+            if k is not None:
+                typ, ln, col, val = toks[k]
+                tt = token_text(typ, val) or ""
+                if text[starts[k]:starts[k] + len(tt)] == tt and off < starts[k] + len(tt):
+                    return f"BAD_LEXEME is printed with ({h0[0]},{h0[1]}), a character of the {typ} token at ({ln},{col})"
+            continue
+        kinds = AT_TOKEN_START.get(e["name"]) or INSIDE.get(e["name"])
+        if kinds is None:
+            continue                    # a diagnostic this oracle has no statement about
+        if k is None:
+            return f"diagnostic {e['name']} is printed with ({h0[0]},{h0[1]}), which is in no token"
+        typ, ln, col, val = toks[k]
+        tt = token_text(typ, val) or ""
+        if text[starts[k]:starts[k] + len(tt)] != tt or "\t" in tt or "\n" in tt.rstrip("\n") and typ != "MULT_COMMENT":
+            continue                    # splice / alternative spelling / tab / line break inside the token
+        rel = off - starts[k]
+        if typ not in kinds or rel >= len(tt):
+            return (f"diagnostic {e['name']} is printed with ({h0[0]},{h0[1]}), inside or after the {typ} token "
+                    f"{tt!r} at ({ln},{col})")
+        if e["name"] in AT_TOKEN_START:
+            if rel != 0:
+                return f"diagnostic {e['name']} is printed with ({h0[0]},{h0[1]}), the literal {tt!r} starts at ({ln},{col})"
+        elif e["name"] == "MAXIMAL_MUNCH":
+            if tt[rel] not in "+-":
+                return f"MAXIMAL_MUNCH is printed with ({h0[0]},{h0[1]}) = {tt[rel]!r} of {tt!r}, not with the sign"
+        elif e["name"] == "INVALID_SUFFIX":
+            if rel != digits_end(tt):
+                return (f"INVALID_SUFFIX is printed with ({h0[0]},{h0[1]}) = offset {rel} of {tt!r}; the digits end "
+                        f"at offset {digits_end(tt)}")
+        elif e["name"] in ("INVALID_BIN_INT", "INVALID_OCT_INT"):
+            first = 2 if e["name"] == "INVALID_BIN_INT" else 1
+            allowed = "01" if e["name"] == "INVALID_BIN_INT" else "01234567"
+            end = first
+            while end < len(tt) and tt[end].isdigit():
+                end += 1
+            want = [i for i in range(first, end) if tt[i] not in allowed]
+            got = sorted(offset_of.get((h[0], h[1]), -1) - starts[k] for h in hs)
+            if got != want:
+                return f"{e['name']} on {tt!r}: highlighted offsets {got}, the digits not allowed in the base are at {want}"
+        elif e["name"] in ("UNKNOWN_ESCAPE", "NO_HEX_DIGITS"):
+            if rel == 0 or tt[rel - 1] != "\\":
+                return f"{e['name']} is printed with ({h0[0]},{h0[1]}) = offset {rel} of {tt!r}, which does not follow a backslash"
+    return None
+
+
+DIAGNOSED = ["0x1E+2", "0xe-1", "1e+", "1e", "5E-", "12lL", "12abc", "1_000", "0x", "0b", "12u3", "0b1e", "0778", "089", "0b12", "0b102",
+             "0b2", "1.2.3", "1..2", "0xx1.0p1", "1.5q", "1e5q", "1.0ff", "1e+5x", "0x1p1x", "'ab'", "''", "'a", "\"abc", "/* x",
+             "'\\q'", "\"\\q\"", "\"\\x\"", "'\\xg'", "\"ab\\qcd\"", "@", "$", "`", "1@", "a$b"]
 
 
 def op_search(task):
@@ -249,6 +352,12 @@ def op_search(task):
             for after in ("m", " m", "\tm", ";"):
                 for pre in ("", "x ", "\t"):
                     structured.append(pre + head + inner + tail + after)
+    # lexemes the tokenizer diagnoses, at several columns (after a tab, after other tokens)
+    if task.get("mode") == "positions":
+        for lx in DIAGNOSED:
+            for pre in ("", "x = ", "\t", "ab\t", "/* c */ ", "a;\n\t"):
+                for after in (";", " ;", "\n", ""):
+                    structured.append(pre + lx + after)
     for text in structured:
         if text in seen:
             continue
